@@ -59,7 +59,22 @@ func c01Gen(t *rapid.T) interface{} {
 		if lib.IntN(t, 0, 1, "synthTiny") == 0 {
 			hi = q + 1
 		}
-		c.Corpus.Synth = append(c.Corpus.Synth, genSynthDoc(t, i, lo, hi))
+		d := genSynthDoc(t, i, lo, hi)
+		c.Corpus.Synth = append(c.Corpus.Synth, d)
+		if lib.IntN(t, 0, 3, "twin") == 0 {
+			// the same text under the same name in another category (a license that is also its own header), in
+			// upper case and with other line breaks: token-identical, so a copy is a verbatim copy of both
+			tw := d
+			for _, cat := range []string{"Header", "License", "Supplement"} {
+				if cat != d.Cat {
+					tw.Cat = cat
+					break
+				}
+			}
+			tw.Variant = "twin.txt"
+			tw.Text = strings.ToUpper(strings.Join(strings.Fields(d.Text), "\n"))
+			c.Corpus.Synth = append(c.Corpus.Synth, tw)
+		}
 	}
 	if (ns > 0 || !c.Corpus.Full) && lib.IntN(t, 0, 2, "readd") == 0 {
 		c.Corpus.ReAdd = true
@@ -257,6 +272,37 @@ func c01Check(ci interface{}) lib.Outcome {
 			return lib.Outcome{Violation: fmt.Sprintf("copy %d of %s (threshold %v, classifier q=%d, %d tokens) not reported as %s/%s conf=1 tokens=%d-%d lines=%d-%d; Match returned:\n%s",
 				k, p.file.key(), c.Thr, cl.q, p.n, p.file.Cat, p.file.Name, p.off, p.off+p.n-1, p.startLine, p.endL, fmtRecs(canon(res))), Classes: classes}
 		}
+		// a copy of p is also a verbatim copy of every corpus document with the same token sequence
+		for _, g := range c.Corpus.files() {
+			if g.key() == p.file.key() || !strings.HasPrefix(g.Name, "Synth-") {
+				continue
+			}
+			dg, dp := cl.docs[docKey(g)], cl.docs[docKey(p.file)]
+			if dg == nil || dp == nil || dg.size() != dp.size() {
+				continue
+			}
+			same := true
+			for i := range dg.Tokens {
+				if dg.Tokens[i].ID != dp.Tokens[i].ID {
+					same = false
+					break
+				}
+			}
+			if !same {
+				continue
+			}
+			twinFound := false
+			for _, m := range res.Matches {
+				if m.MatchType == g.Cat && m.Name == g.Name && m.Variant == g.Variant && m.Confidence == 1.0 && m.StartTokenIndex == p.off && m.EndTokenIndex == p.off+p.n-1 {
+					twinFound = true
+				}
+			}
+			if !twinFound {
+				return lib.Outcome{Violation: fmt.Sprintf("copy %d of %s is word for word also a copy of the corpus document %s (same token sequence), which is not reported at conf=1 tokens=%d-%d (threshold %v); Match returned:\n%s",
+					k, p.file.key(), g.key(), p.off, p.off+p.n-1, c.Thr, fmtRecs(canon(res))), Classes: append(classes, "token-identical-twin")}
+			}
+			classes = append(classes, "token-identical-twin")
+		}
 	}
 	var names []string
 	for _, p := range planted {
@@ -287,6 +333,15 @@ func c01Enum(yield func(interface{}) bool) {
 			if !yield(c) {
 				return
 			}
+			if th == 0.8 {
+				// and twice, each copy on lines of its own: whatever the first copy leaves behind in the tokenizer
+				// (per-document state) must not change how the second one is read
+				c2 := &c01Case{Thr: th, Corpus: corpusSel{Full: true}, Copies: []c01Copy{{Doc: d}, {Doc: d}},
+					Seps: []c01Sep{{Words: 2 + d%5, Lines: 1}, {Words: 1 + d%4, Lines: 1 + d%2}, {Words: 2, Lines: 1}}}
+				if !yield(c2) {
+					return
+				}
+			}
 		}
 	}
 }
@@ -315,8 +370,10 @@ func c01EnumCheck(ci interface{}) lib.Outcome {
 		k++
 	}
 	cc := *c
-	cc.Copies = []c01Copy{c.Copies[0]}
-	cc.Copies[0].Doc = k
+	cc.Copies = append([]c01Copy{}, c.Copies...)
+	for i := range cc.Copies {
+		cc.Copies[i].Doc = k // every copy of an enumerated case is the same document
+	}
 	o := c01Check(&cc)
 	o.FP = ""
 	return o
@@ -331,6 +388,6 @@ func TestVerif_C01_Planted(t *testing.T) {
 
 func TestVerif_C01_EveryDoc(t *testing.T) {
 	lib.Run(t, lib.Spec{ID: "C01", Part: "every-document",
-		Rule: "every embedded corpus document planted once in a fixed OOV context at threshold 0.8 (quick) / at each of the 8 menu thresholds (thorough); documents shorter than q are out of domain",
+		Rule: "every embedded corpus document planted once in a fixed OOV context at threshold 0.8 (quick) / at each of the 8 menu thresholds (thorough), and planted twice (each copy on lines of its own) at 0.8; documents shorter than q are out of domain",
 		New:  func() interface{} { return &c01Case{} }, Enum: c01Enum, Check: c01EnumCheck, Exhaustive: true})
 }
